@@ -117,22 +117,22 @@ void constructCommon(ModelSignature model,
     std::string filename_old = checkpoint_filename + "_old";
 
     if (!filename.empty()){ // recover from an existing checkpoint
-        std::ifstream infile(filename, std::ios::binary);
-        try{ // attempt to recover from filename
-            if (!infile.good()) throw std::runtime_error("missing main checkpoint");
-            grid.read(infile, mode_binary);
-            complete.read(infile);
-        }catch(std::runtime_error &){
-            // main file is missing or is corrupt, try the older version
-            std::ifstream oldfile(filename_old, std::ios::binary);
+        auto recover = [&](std::string const &name)->bool{
+            std::ifstream infile(name, std::ios::binary);
+            if (!infile.good()) return false; // missing checkpoint
             try{
-                if (!oldfile.good()) throw std::runtime_error("missing main checkpoint");
-                grid.read(oldfile, mode_binary);
-                complete.read(oldfile);
+                TasmanianSparseGrid saved_grid; // do not touch the grid until the entire file has been read
+                saved_grid.read(infile, mode_binary);
+                complete.read(infile);
+                grid.copyGrid(saved_grid);
+                return true;
             }catch(std::runtime_error &){
-                // nothing could be recovered, start over from the current grid
+                complete.clear(); // the file is corrupt, discard anything that was read
+                return false;
             }
-        }
+        };
+        // try the main file, if missing or corrupt try the older version, if nothing can be recovered start from the current grid
+        if (!recover(filename)) recover(filename_old);
     }
 
     if (!filename.empty()){ // initial checkpoint
